@@ -35,6 +35,8 @@ type vpState struct {
 	Regs  [13]uint64  `json:"regs"`
 	Pages []vpPage    `json:"pages"`
 	Host  []vpHostAct `json:"host"` // schedule: call k uses Host[k % len]
+	Heap  uint64      `json:"heap"` // initial heap pointer (sbrk); 0 = unset
+	HeapL uint64      `json:"heapl"` // heap limit
 }
 
 func vpFill(p vpPage) []byte {
@@ -46,6 +48,12 @@ func vpFill(p vpPage) []byte {
 		d[i] = byte(i)*p.Fill + byte(i>>8) + p.Fill
 	}
 	return d
+}
+
+func vpImplMemoryHeap(st *vpState) *Memory {
+	m := vpImplMemory(st.Pages)
+	m.heapPointer, m.heapLimit = st.Heap, st.HeapL
+	return m
 }
 
 func vpImplMemory(pages []vpPage) *Memory {
